@@ -17,4 +17,9 @@ namespace FunctionCallHelpers {
 int64_t evaluate_function_pointer_call(const ASTNode *node,
                                        Interpreter &interpreter);
 
+// 関数ポインタ / ラムダ経由の呼び出しで束縛したパラメータ変数に、仮引数の
+// 宣言どおりの const 修飾 (const T / const T* / T* const) を反映する
+void apply_param_const_qualifiers(Interpreter &interpreter,
+                                  const ASTNode *param);
+
 } // namespace FunctionCallHelpers
